@@ -398,7 +398,11 @@ def locale_child(outpath):
                 base = VARIANTS.get(fmt, (fmt, {}))[0]
                 cells += 1
                 bio = io.BytesIO()
-                sp.ser(doc, fmt, bio)
+                try:
+                    sp.ser(doc, fmt, bio)
+                except Exception as e:
+                    viol.append(("serialize-raises", "%s:binary-stream-under-%s-locale:%s" % (fmt, enc, type(e).__name__), {"error": repr(e)[:200]}, name, fmt))
+                    continue
                 want = bio.getvalue()
                 path = os.path.join(tmp, "out%d.%s" % (cells, base))
                 try:
